@@ -665,6 +665,7 @@ func main() {
 	r.Finish("function level: every list length 0..300 (thorough 0..1500) x every page size 1..100 x pages 1..N+2 and 17 huge page numbers (2^31..2^64-1, floor(2^64/size)+-k), plus long lists up to 2^63-1, expectation in math/big; visor level: a harness-built chain (one transaction per block, 7 addresses, 3 pooled transactions) queried through Visor.GetTransactions for address sets x confirmed filter x order x page sizes x pages 1..N+2 and the huge pages; a case is distinct by (n,size) resp. (query,size)",
 		"the unpaged call (page=nil) is taken as 'the result list' whose slices the pages must be; its content as a set is compared with the harness's own record of which transaction touches which address, and its order with the documented block-sequence order for confirmed-only queries",
 		"one transaction per block, so that the documented order is unambiguous",
-		"the HTTP leg (/api/v2/transactions) is not part of this binary yet (TODO through lib/node)",
+		"HTTP leg (api.go, apicross.go): a real node on a harness-built chain (1-3 transactions per block) with 17 pooled transactions; GET /api/v2/transactions for address sets x confirmed x sort x page sizes x pages 1..N+2 and the huge pages, then the full cross product verbose {absent,0,1} x sort {absent,asc,desc} x confirmed {absent,0,1} x addrs {absent, one, several} x page sizes {1,2,3,7,10, = total, > total}, all pages of every combination, walks of different combinations interleaved on the node; per combination the concatenated pages must be one list for every page size and for the verbose and plain forms, hold what the ledger and the harness's pool record say, be ordered by block sequence, and total_pages = ceil(n/size)",
+		"where the pooled transactions stand among the confirmed ones is counted (api.x.walks_pooled_txns_between_confirmed_ones), not judged, unless VERIF_C29_STRICT_ORDER=1",
 		"list lengths above 2^63-1 cannot occur for a Go slice and are not tried")
 }
